@@ -2,7 +2,7 @@
    Property theorems only; each is closed by lemmas of Proofs/Ldns*.v.
    The model is of the REPAIRED code (two fix: commits on dns.go); the *_orig definitions are the
    unchanged code and carry the ..._refuted witnesses. *)
-From GP Require Import Base N6Lib LdnsModel LdnsDec LdnsSer.
+From GP Require Import Base N6Lib LdnsModel LdnsDec LdnsSer LdnsRt.
 Open Scope Z_scope.
 
 (* ------------------------------------------------------------------ C19 *)
@@ -42,6 +42,65 @@ Example C05_dns_nonvacuous :
   d_answers (fst (fst (decode_into old [0;2;1;0; 0;0;0;0;0;0;0;0]))) = [] /\
   snd (fst (decode_into old [0;2;1;0; 0;0;0;0;0;0;0;0])) = Ok tt.
 Proof. vm_compute. repeat split. Qed.
+
+(* ------------------------------------------------------------------ C06 *)
+(* Round trip for every well-formed message value (dns_wf, LdnsRt.v): header fields in range, fewer than
+   65536 entries per section, every name as the decoder presents it — labels of 1..63 octets, wire
+   length at most 255, joined by dots, with the private label metadata present exactly when some
+   label holds a literal dot or backslash (wf_q, wf_rr with canon_names) — and records of the types
+   A, AAAA, NS, CNAME, PTR, SOA, MX, TXT, SRV with their fields in range (wf_rdata).
+   Serializing with FixLengths+ComputeChecksums over any payload into any buffer succeeds; decoding
+   the DNS part succeeds, is not truncated, and gives back the same header fields, the counts the
+   serializer stored, the same questions (metadata included) and records with the same fields
+   (rr_same: name, type, class, TTL, the type's RDATA fields, the metadata; DataLength/Data describe
+   the new wire form), Contents = the bytes written, empty payload. *)
+Theorem C06_dns_roundtrip : forall d payload junk, dns_wf d ->
+  exists w d2,
+    roundtrip d payload junk = (Ok (w ++ payload), (d2, Ok tt, false)) /\
+    d_id d2 = d_id d /\ d_qr d2 = d_qr d /\ d_opcode d2 = d_opcode d /\ d_aa d2 = d_aa d /\ d_tc d2 = d_tc d /\
+    d_rd d2 = d_rd d /\ d_ra d2 = d_ra d /\ d_z d2 = d_z d /\ d_rcode d2 = d_rcode d /\
+    d_qdcount d2 = zlen (d_questions d) /\ d_ancount d2 = zlen (d_answers d) /\
+    d_nscount d2 = zlen (d_authorities d) /\ d_arcount d2 = zlen (d_additionals d) /\
+    d_questions d2 = d_questions d /\
+    Forall2 rr_same (d_answers d) (d_answers d2) /\ Forall2 rr_same (d_authorities d) (d_authorities d2) /\
+    Forall2 rr_same (d_additionals d) (d_additionals d2) /\
+    d_contents d2 = w /\ d_payload d2 = [].
+Proof. exact roundtrip_ok. Qed.
+Print Assumptions C06_dns_roundtrip.
+
+(* re-serializing the decoded layer, with any options into any buffer, gives the same bytes *)
+Theorem C06_dns_fixpoint : forall d payload junk, dns_wf d ->
+  exists w d2,
+    roundtrip d payload junk = (Ok (w ++ payload), (d2, Ok tt, false)) /\
+    forall fix_ csum junk', fst (serialize d2 payload fix_ csum junk') = Ok (w ++ payload).
+Proof. exact roundtrip_fixpoint. Qed.
+Print Assumptions C06_dns_fixpoint.
+
+(* a response with a compressed owner name and a label holding a literal dot: the decoded value is
+   well formed after FixLengths, i.e. the hypothesis is satisfiable by decoder output *)
+Example C06_dns_nonvacuous :
+  exists d, dns_wf d /\ length (d_answers d) = 2%nat /\ d_questions d <> [] /\
+            exists r, In r (d_answers d) /\ r_names r <> None.
+Proof.
+  exists (mkDns 7 true 0 false false true true 0 0 1 2 0 0
+    [mkQ [119;119;119;46;97] 1 1 None]
+    [mkRR [119;119;119;46;97] 5 1 300 0 [] [] [] [120;46;121;46;97] [] [] soa0 srv0 mx0 naptr0 [] rrsig0 dnskey0 svcb0 uri0 []
+          (Some (mkRmeta nmeta0 (mkNmeta (Some [[120;46;121];[97]]) [120;46;121;46;97]) nmeta0));
+     mkRR [97] 1 1 60 4 [1;2;3;4] [1;2;3;4] [] [] [] [] soa0 srv0 mx0 naptr0 [] rrsig0 dnskey0 svcb0 uri0 [] None]
+    [] [] [] []).
+  split.
+  - unfold dns_wf. cbn [d_id d_opcode d_z d_rcode d_questions d_answers d_authorities d_additionals].
+    repeat split; try (unfold u16_ok; lia); try (cbn; lia); try constructor; try constructor; try constructor.
+    + exists [[119;119;119];[97]]. repeat split; try (cbn; lia); try (vm_compute; reflexivity); try (vm_compute; intro; discriminate).
+      repeat constructor; unfold byte_ok; cbn; lia.
+    + exists [[119;119;119];[97]], [[120;46;121];[97]], []. unfold u16_ok, u32_ok. cbn [r_name r_type r_class r_ttl r_names].
+      repeat split; try lia; try (vm_compute; reflexivity); try (vm_compute; intro; discriminate);
+        try (repeat constructor; unfold byte_ok; cbn; lia).
+    + exists [[97]], [], []. unfold u16_ok, u32_ok. cbn [r_name r_type r_class r_ttl r_names].
+      repeat split; try lia; try (vm_compute; reflexivity); try (vm_compute; intro; discriminate);
+        try (repeat constructor; unfold byte_ok; cbn; lia).
+  - split; [reflexivity|]. split; [discriminate|]. eexists. split; [left; reflexivity|discriminate].
+Qed.
 
 (* ------------------------------------------------------------------ C07 *)
 (* DNS.SerializeTo never panics: for EVERY layer value — whatever a successful or failed decode left
